@@ -388,6 +388,22 @@ def run_histories(ctx):
                     pass
             first = {}
             for rnd in range(2):
+                if rnd == 1:
+                    # meanwhile another transform object is built and configured
+                    # differently (same class, and every class sharing its options)
+                    for other_name in (tn, "LogSinh", "Manly", "BoxCox2"):
+                        try:
+                            o_ = transform.get_transform(other_name,
+                                                         **SETUP.get(other_name, {}))
+                            for k_ in list(o_.params.names) + list(o_.constants.names):
+                                try:
+                                    o_[k_] = float(o_[k_]) * 3.0 + 0.77 \
+                                        if np.isfinite(float(o_[k_])) else 123.0
+                                except Exception:
+                                    pass
+                            o_.forward(x.copy())
+                        except Exception:
+                            pass
                 for meth in order:
                     arg = x.copy()
                     if meth == "backward":
